@@ -240,6 +240,7 @@ func (c *V1) Do(op Op) (out Outcome) {
 	case OpPut:
 		in := &v1ddb.PutItemInput{TableName: aws.String(op.Table), Item: ItemToV1(op.Item), ConditionExpression: condExpr(op),
 			ExpressionAttributeNames: v1Names(op.Names), ExpressionAttributeValues: ItemToV1(op.Values)}
+		in.ReturnConsumedCapacity = strp(op.RetCap)
 		for a, v := range op.Expected {
 			if in.Expected == nil {
 				in.Expected = map[string]*v1ddb.ExpectedAttributeValue{}
@@ -253,6 +254,7 @@ func (c *V1) Do(op Op) (out Outcome) {
 		return fin(err)
 	case OpGet:
 		in := &v1ddb.GetItemInput{TableName: aws.String(op.Table), Key: ItemToV1(op.Key), ProjectionExpression: strp(op.Proj), ExpressionAttributeNames: v1Names(op.Names)}
+		in.ReturnConsumedCapacity = strp(op.RetCap)
 		in.AttributesToGet = v1Strs(op.AttrsToGet)
 		if op.Consistent {
 			in.ConsistentRead = aws.Bool(true)
@@ -272,6 +274,7 @@ func (c *V1) Do(op Op) (out Outcome) {
 	case OpUpdate:
 		in := &v1ddb.UpdateItemInput{TableName: aws.String(op.Table), Key: ItemToV1(op.Key), UpdateExpression: updExpr(op),
 			ConditionExpression: condExpr(op), ExpressionAttributeNames: v1Names(op.Names), ExpressionAttributeValues: ItemToV1(op.Values)}
+		in.ReturnConsumedCapacity = strp(op.RetCap)
 		for a, v := range op.Expected {
 			if in.Expected == nil {
 				in.Expected = map[string]*v1ddb.ExpectedAttributeValue{}
@@ -291,6 +294,7 @@ func (c *V1) Do(op Op) (out Outcome) {
 	case OpDelete:
 		in := &v1ddb.DeleteItemInput{TableName: aws.String(op.Table), Key: ItemToV1(op.Key), ConditionExpression: condExpr(op),
 			ExpressionAttributeNames: v1Names(op.Names), ExpressionAttributeValues: ItemToV1(op.Values)}
+		in.ReturnConsumedCapacity = strp(op.RetCap)
 		if op.RetOld {
 			in.ReturnValues = aws.String("ALL_OLD")
 		}
@@ -317,6 +321,7 @@ func (c *V1) Do(op Op) (out Outcome) {
 		in := &v1ddb.QueryInput{TableName: aws.String(op.Table), FilterExpression: strp(op.Filter), ProjectionExpression: strp(op.Proj),
 			ExpressionAttributeNames: v1Names(op.Names), ExpressionAttributeValues: ItemToV1(op.Values), IndexName: strp(op.Index),
 			ExclusiveStartKey: ItemToV1(op.Start)}
+		in.ReturnConsumedCapacity = strp(op.RetCap)
 		if !op.NoKC {
 			in.KeyConditionExpression = aws.String(op.KeyCnd)
 		}
@@ -350,6 +355,7 @@ func (c *V1) Do(op Op) (out Outcome) {
 		in := &v1ddb.ScanInput{TableName: aws.String(op.Table), FilterExpression: strp(op.Filter), ProjectionExpression: strp(op.Proj),
 			ExpressionAttributeNames: v1Names(op.Names), ExpressionAttributeValues: ItemToV1(op.Values), IndexName: strp(op.Index),
 			ExclusiveStartKey: ItemToV1(op.Start)}
+		in.ReturnConsumedCapacity = strp(op.RetCap)
 		in.AttributesToGet = v1Strs(op.AttrsToGet)
 		if op.Consistent {
 			in.ConsistentRead = aws.Bool(true)
@@ -378,6 +384,7 @@ func (c *V1) Do(op Op) (out Outcome) {
 		return o
 	case OpBatchWrite:
 		in := &v1ddb.BatchWriteItemInput{RequestItems: map[string][]*v1ddb.WriteRequest{}}
+		in.ReturnConsumedCapacity = strp(op.RetCap)
 		for _, t := range op.EmptyTables {
 			in.RequestItems[t] = []*v1ddb.WriteRequest{}
 		}
